@@ -5858,7 +5858,10 @@ write_function_instance(ostream &out, FunctionRemap *remap,
       if (args_type == AT_single_arg) {
         type_check = "PyLongOrInt_Check(arg)";
         extra_convert
-          << "long " << param_name << " = PyLongOrInt_AS_LONG(arg);\n";
+          << "long " << param_name << " = PyLongOrInt_AS_LONG(arg);\n"
+          << "if (" << param_name << " == -1 && PyErr_Occurred()) {\n";
+        error_return(extra_convert, 2, return_flags);
+        extra_convert << "}\n";
 
         pexpr_string = "(" + type->get_local_name(&parser) + ")" + param_name;
       } else {
@@ -5903,6 +5906,10 @@ write_function_instance(ostream &out, FunctionRemap *remap,
         // Perform overflow checking in debug builds.
         extra_convert
           << "long arg_val = PyLongOrInt_AS_LONG(arg);\n"
+          << "if (arg_val == -1 && PyErr_Occurred()) {\n";
+        error_return(extra_convert, 2, return_flags);
+        extra_convert
+          << "}\n"
           << "#ifndef NDEBUG\n"
           << "if (arg_val < SHRT_MIN || arg_val > SHRT_MAX) {\n";
 
@@ -5930,7 +5937,10 @@ write_function_instance(ostream &out, FunctionRemap *remap,
         // we have to accept PyLong as well here.
         type_check = "PyLongOrInt_Check(arg)";
         extra_convert
-          << "unsigned long " << param_name << " = PyLong_AsUnsignedLong(arg);\n";
+          << "unsigned long " << param_name << " = PyLong_AsUnsignedLong(arg);\n"
+          << "if (" << param_name << " == (unsigned long)-1 && PyErr_Occurred()) {\n";
+        error_return(extra_convert, 2, return_flags);
+        extra_convert << "}\n";
         pexpr_string = "(" + type->get_local_name(&parser) + ")" + param_name;
       } else {
         indent(out, indent_level) << "unsigned long " << param_name << default_expr << ";\n";
@@ -5963,7 +5973,12 @@ write_function_instance(ostream &out, FunctionRemap *remap,
     } else if (TypeManager::is_long(type)) {
       // Signed longs are equivalent to Python's int type.
       if (args_type == AT_single_arg) {
-        pexpr_string = "PyLongOrInt_AS_LONG(arg)";
+        extra_convert
+          << "long arg_val = PyLongOrInt_AS_LONG(arg);\n"
+          << "if (arg_val == -1 && PyErr_Occurred()) {\n";
+        error_return(extra_convert, 2, return_flags);
+        extra_convert << "}\n";
+        pexpr_string = "arg_val";
         type_check = "PyLongOrInt_Check(arg)";
       } else {
         indent(out, indent_level) << "long " << param_name << default_expr << ";\n";
@@ -5982,6 +5997,10 @@ write_function_instance(ostream &out, FunctionRemap *remap,
         // where longs are the same size as ints.
         extra_convert
           << "long arg_val = PyLongOrInt_AS_LONG(arg);\n"
+          << "if (arg_val == -1 && PyErr_Occurred()) {\n";
+        error_return(extra_convert, 2, return_flags);
+        extra_convert
+          << "}\n"
           << "#if (SIZEOF_LONG > SIZEOF_INT) && !defined(NDEBUG)\n"
           << "if (arg_val < INT_MIN || arg_val > INT_MAX) {\n";
 
